@@ -238,6 +238,10 @@ def call(objs, st, tmp):
                 else CALLABLES[fn['f']]
         return f.applyAlongDimensions(**kw)
     if act == 'stack':
+        if a.get('via') == 'stack_files':
+            # the module-level entry point (used by the command line tools)
+            from PseudoNetCDF.core._functions import stack_files
+            return stack_files([f] + list(others), a['dim'])
         return f.stack(others if len(others) != 1 or a.get('aslist')
                        else others[0], a['dim'])
     if act == 'subset':
@@ -470,6 +474,7 @@ def _gen_step(rnd, sh, src, shadows, focus=None, strict=False):
                      if d != a['dim']) and set(s2.dims) == set(sh.dims)]
         st['others'] = [rnd.choice(cands) for _ in range(k)]
         a['aslist'] = rnd.random() < 0.5
+        a['via'] = 'stack_files' if rnd.random() < 0.3 else 'method'
     elif act == 'subset':
         vs = list(sh.vars)
         a['keys'] = rnd.sample(vs, rnd.randint(1, len(vs)))
